@@ -63,7 +63,7 @@ func init() {
 
 func init() {
 	control(&Control{ID: "eofphantom-end-as-message", Rule: "EOF-NO-PHANTOM", File: "larking/http.go",
-		Old: "\t\t\tif n == 0 && count > 0 {\n", New: "\t\t\tif n == 0 && count > 0 && len(b) > 0 {\n",
+		Old: "\t\t\t\tif count > 0 {\n\t\t\t\t\treturn count, nil, io.EOF\n\t\t\t\t}\n", New: "\t\t\t\tif count > 0 && len(b) > 0 {\n\t\t\t\t\treturn count, nil, io.EOF\n\t\t\t\t}\n",
 		Expect: "end-of-body-is-no-message", Why: "clean end delivered as an empty message"})
 }
 
